@@ -108,6 +108,30 @@ pub open spec fn server_network_view(chan: MV) -> MV {
                   ("channelCount"@, MV::Dyn(Box::new(MV::U16(0, true)), OV::Size("channelIdArray"@, 0))),
                   ("channelIdArray"@, MV::Arr(Seq::empty(), Box::new(MV::U16(0, true))))])
 }
+/// GCC Conference Create Response (T.124 ConnectGCCPDU in aligned PER, MS-RDPBCGR 2.2.1.4 and the annotated PDU of section 4.1.4):
+///   00                  choice (ConnectData::Key = object)
+///   05 00 14 7c 00 01   OBJECT IDENTIFIER 0.0.20.124.0.1 (length determinant, then 5 bytes)
+///   LL [LL]             length of the connect PDU
+///   14 nn nn            choice (ConferenceCreateResponse), nodeID - 1001 (2 bytes)
+///   0L tt..             INTEGER tag (length determinant 1, 2 or 4, then the value)
+///   00 01 c0            ENUMERATED result, number of user data sets, choice (h221NonStandard)
+///   00 4d 63 44 6e      H.221 key: length determinant = length - 4 (the lower bound of the type), then "McDn"
+///   LL [LL] ...         length of the server data blocks, then the blocks
+/// ccr_at_key(b) = what is left of `b` in front of the H.221 key, field by field as listed above
+pub open spec fn ccr_at_key(b: Seq<u8>) -> Seq<u8> {
+    let r1 = b.skip(1);
+    let r2 = r1.skip(per::per_len_dec(r1).1 + 5);
+    let r3 = r2.skip(per::per_len_dec(r2).1);
+    let r4 = r3.skip(1).skip(2);
+    let r5 = r4.skip(per::per_int_dec(r4).1);
+    r5.skip(1).skip(1).skip(1)
+}
+/// necessary for acceptance: the OID has 5 content bytes and the H.221 key found at that place is "McDn" with length determinant 0
+#[verifier::opaque]
+pub open spec fn ccr_key_ok(b: Seq<u8>) -> bool {
+    let t = ccr_at_key(b); let d = per::per_len_dec(t);
+    per::per_len_dec(b.skip(1)).0 == 5 && d.0 == 0 && t.len() >= d.1 + 4 && t.subrange(d.1, d.1 + 4) =~= seq![0x4du8, 0x63u8, 0x44u8, 0x6eu8]
+}
 """, mod="gcc", name="gcc_server_layouts"))
 A(Raw(r"""
 impl vstd::std_specs::cmp::PartialEqSpecImpl for Version {
@@ -183,14 +207,20 @@ GF("write_conference_create_request", props=["C04", "C18", "C03"], requires=["us
           (r"per::write_padding\(", 1, "proof { assert(Seq::new(1nat, |i: int| 0u8) =~= seq![0u8]); assert(result.written() =~= w1 + seq![0u8, 8u8, 0u8, 0x10u8, 0u8]); }"),
           (r"per::write_octet_stream\(&H221_CS_KEY", 1, "proof { assert(per::per_len(0u16) =~= seq![0u8]); assert(result.written() =~= w1 + seq![0u8, 8u8, 0u8, 0x10u8, 0u8, 1u8, 0xc0u8, 0u8, 0x44u8, 0x75u8, 0x63u8, 0x61u8]); }")],
    ensures=[("C04,C18", "t124-wrapper", "r is Ok ==> r->Ok_0@ =~= gcc_ccr(user_data@)")])
-GF("read_conference_create_response", props=["C05"],
+GF("read_conference_create_response", props=["C05", "C03"],
    body_sub=[(r"cc_response\.take\(length as u64\)", "take_reader(cc_response, length as u64)")],
    nloops=2,
    loops={1: """invariant blocks_ok(result.m()),
         decreases sub.rest().len()"""},
+   pre="let ghost b = cc_response.rest();",
    hints=[(r"server_core\.read\(", 1, "proof { assert(server_core.fields()[0].0 == \"rdpVersion\"@); }"),
-          (r"server_net\.read\(", 1, "proof { assert(server_net.fields()[2].0 == \"channelIdArray\"@); }")],
-   ensures=[("C05", "monotone", "true")])
+          (r"server_net\.read\(", 1, "proof { assert(server_net.fields()[2].0 == \"channelIdArray\"@); }"),
+          (r"per::read_octet_stream\(&H221_SC_KEY, 4, cc_response\)\?;", 1, "proof { assert(cc_response.rest() == ccr_at_key(b)); }", "before"),
+          (r"per::read_octet_stream\(&H221_SC_KEY, 4, cc_response\)\?;", 1, "proof { assert(H221_SC_KEY@ =~= seq![0x4du8, 0x63u8, 0x44u8, 0x6eu8]); assert(ccr_key_ok(b)) by { reveal(ccr_key_ok); } }")],
+   ensures=[("C05", "monotone", "true"),
+            # T.124 / MS-RDPBCGR 2.2.1.4 (wire level, necessary conditions of acceptance): the reader walks the PER fields in the documented order and widths (ccr_at_key) and
+            # accepts only the H.221 non standard key "McDn" with length determinant 0 (= 4 - the lower bound 4) behind an OBJECT IDENTIFIER of 5 content bytes
+            ("C03,C05", "conference-create-response-as-documented", "r is Ok ==> ccr_key_ok(old(cc_response).rest())")])
 
 # ---------------- mcs.rs
 A(Item(MCS, "enum", "DomainMCSPDU", mod="mcs", add_derive="Copy, Clone"))
